@@ -670,8 +670,21 @@ void oracle_c12_search(World &w, const History &)
         q_order.push_back(x.q.id);
         q_name[x.q.id] = vdns::lower(vdns::name_text(x.q.q[0].labels));
       }
-      for (auto &p : w.packets)
-        if (!p.forged && p.for_tx == x.id && p.seq_read >= 0 && p.seq_read < t.seq_done) q_oc[x.q.id] = p.kind;
+      for (auto &p : w.packets) {
+        if (p.forged || p.for_tx != x.id || p.seq_read < 0 || p.seq_read >= t.seq_done) continue;
+        // an answer counts for the wire query's current transmission only: once the query was re-sent on another
+        // socket, a late answer on the socket it left is not listened for any more (that is C05's concern)
+        bool moved = false;
+        for (int j = i + 1; j < t.tx_at_done && j < (int)w.txs.size(); j++) {
+          const Transmission &y = w.txs[(size_t)j];
+          if (y.q.ok && y.q.id == x.q.id && y.seq < p.seq_read && y.sock_serial != x.sock_serial) moved = true;
+        }
+        if (moved) {
+          w.W("obs_c12_late_answer_on_left_socket");
+          continue;
+        }
+        q_oc[x.q.id] = p.kind;
+      }
     }
     size_t per_cand = (r.kind == 6 && r.family == AF_UNSPEC) ? 2 : 1; // getaddrinfo asks A and AAAA per candidate
     for (unsigned q : q_order) {
@@ -736,6 +749,17 @@ void oracle_c12_search(World &w, const History &)
     if (r.kind == 6 || r.kind == 7) {
       // address lookups consult the hosts file / literals first and map statuses differently: only the name order is judged
       if (w.cfg->lookups != "b") continue;
+    }
+    // a socket-level failure while the request was in flight (no descriptor for the candidate's connection, say) is a
+    // hard error for the candidate being sent: the search ends there with the connection status; the candidate itself
+    // may never have reached the wire
+    bool net_failed = false;
+    for (auto &nf : w.net_fails)
+      if (nf.seq >= t.seq_issue && (t.seq_done < 0 || nf.seq <= t.seq_done)) net_failed = true;
+    if (net_failed && t.status == ARES_ECONNREFUSED) {
+      if (seen.size() + 1 == expect_n && exp_status == ARES_ETIMEOUT) expect_n--; // the last candidate was never sent
+      exp_status = ARES_ECONNREFUSED;
+      w.W("c12_hard_error_from_socket_failure");
     }
     std::vector<std::string> expect;
     for (size_t i = 0; i < expect_n && i < cand.size(); i++) expect.push_back(norm_name(cand[i]));
